@@ -371,6 +371,21 @@ pub fn c04(ctx: &Ctx) -> Report {
                 Some(c) => c,
                 None => continue,
             };
+            // one case in seven: the same entries under a comparator that is neither bytewise nor its reverse (shorter
+            // keys first): code that compares keys with `<` on the bytes instead of asking the comparator shows only here
+            let c = if i % 7 == 3 {
+                let mut cfg2 = c.cfg.clone();
+                cfg2.cmp = CmpKind::LenFirst;
+                let mut es2 = c.es.clone();
+                es2.sort_by(|a, b| (a.0.len(), &a.0).cmp(&(b.0.len(), &b.0)));
+                rep.count("tables_with_length_first_comparator");
+                match build_case(d, rep, &cfg2, &es2) {
+                    Some(c2) => c2,
+                    None => continue,
+                }
+            } else {
+                c
+            };
             let probes = probes(rng, &c.es, &[]);
             let mut ops = vec![open_op(rng, 0, 0, &c), Op::Iter(0, 0)];
             ops.extend(gen_ops(rng, 1, 1, &probes, hist_len, true).into_iter().filter(|o| !matches!(o, Op::Get(..) | Op::Approx(..))));
